@@ -68,3 +68,11 @@ func vSeqEq[T comparable](a, b []T) bool {
 	}
 	return true
 }
+
+// Callback protocol: vCbLog(f, name) is the ghost log NAME of the function-typed parameter f (the
+// strings logged by its `callback f(...) log NAME expr` clause, one per call, in order); vCbOK(f)
+// says that every call of f so far returned a nil error. Not executable.
+func vCbLog(f any, name string) []string    { panic("verif: ghost log is not executable") }
+func vCbLogOld(f any, name string) []string { panic("verif: ghost log is not executable") }
+func vCbOK(f any) bool                      { panic("verif: ghost state is not executable") }
+func vCbOKOld(f any) bool                   { panic("verif: ghost state is not executable") }
